@@ -272,6 +272,13 @@ func runPipeScenario(r *rand.Rand, kr *keyring, w *ndWriter, idx int) {
 		switch k := r.Intn(10); {
 		case k < 2:
 			rec = hrrRecord(false, []int{0, 0, 3000}[r.Intn(3)])
+			if r.Intn(3) == 0 {
+				// a backend that puts further handshake messages into the record of its ServerHello (a TLS 1.2 flight:
+				// ServerHello, Certificate, ServerHelloDone): still one record, still a ServerHello that is no HelloRetryRequest
+				more := append([]byte{11, 0, 0, 7, 0, 0, 4, 0, 0, 1, 0x30}, 14, 0, 0, 0)
+				rec = append(rec, more...)
+				rec[3], rec[4] = byte((len(rec)-5)>>8), byte(len(rec)-5)
+			}
 			br = pipeBRec{T: "SH", Len: len(rec) - 5}
 		case k < 4:
 			rec = hrrRecord(true, []int{0, 0, 3000}[r.Intn(3)])
